@@ -10,6 +10,7 @@ Lemma fact_advance : poll_ready_advances_by_written = true. Proof. reflexivity. 
 Lemma fact_clears : poll_ready_clears_writing = true. Proof. reflexivity. Qed.
 Lemma fact_cached : recv_id_cached = true. Proof. reflexivity. Qed.
 Lemma fact_puts_back : poll_data_puts_back = true. Proof. reflexivity. Qed.
+Lemma fact_puts_back_on_error : poll_data_puts_back_on_error = true. Proof. reflexivity. Qed.
 Lemma fact_delivers : poll_data_delivers_stop = true. Proof. reflexivity. Qed.
 Lemma fact_defers : stop_sending_defers = true. Proof. reflexivity. Qed.
 Lemma fact_saturates : reset_saturates = true. Proof. reflexivity. Qed.
@@ -592,7 +593,7 @@ Proof.
   intros Hq. unfold poll_data.
   assert (Hf : match r_stream r with Some q0 => FutReading q0 | None => r_fut r end = FutReading q).
   { unfold underlying in Hq. destruct (r_stream r) as [q0|]; [congruence|]. destruct (r_fut r); congruence. }
-  rewrite Hf, fact_delivers, fact_puts_back. unfold blocked_state, ready_state.
+  rewrite Hf, fact_delivers, fact_puts_back, fact_puts_back_on_error. unfold blocked_state, ready_state.
   destruct o as [|[b| | |e] o1]; reflexivity.
 Qed.
 
@@ -813,6 +814,39 @@ Proof.
   pose proof Hinv as (_ & (q & Hq & _) & _).
   exists r. eexists. split; [exact Hr|]. rewrite (poll_data_char r q _ Hq). split; [reflexivity|]. split; [reflexivity|].
   unfold recv_id, recv_id_with. rewrite fact_cached. cbn [blocked_state r_id]. destruct Hinv as (H1 & _ & _). congruence.
+Qed.
+
+(* after a FAILED read the stream is back in `self.stream`: it can be polled again, asked for its id and stopped
+   (at once, nothing is parked), whatever Quinn answers next *)
+Lemma after_failed_read id r e o :
+  recv_inv id r -> e <> QRIllegalOrderedRead ->
+  exists cls r2 q2,
+    poll_data (RFail e :: o) r = (Ready (Err cls), r2, o) /\ spec_read_class e = Some cls /\
+    r_stream r2 = Some q2 /\ r_pending_stop r2 = None /\ recv_inv id r2 /\ recv_id r2 = Ok id /\
+    (forall c, c <= varint_max ->
+       stop_sending c r2 = (Ok tt, {| r_id := r_id r2; r_stream := Some (q_stop c q2); r_fut := r_fut r2; r_pending_stop := None |})) /\
+    (forall a o', a <> RFail QRIllegalOrderedRead ->
+       exists x r3 o3, poll_data (a :: o') r2 = (x, r3, o3) /\ poll_not_panic x /\ recv_inv id r3 /\ recv_id r3 = Ok id).
+Proof.
+  intros Hinv He. pose proof Hinv as (Hid & (q & Hq & Hqid) & Hps).
+  destruct (spec_read_class e) as [cls|] eqn:Hc; [|apply read_class_none_iff in Hc; contradiction].
+  assert (Hstep : recv_step OPollData r (RFail e :: o) = (RRData (Ready (Err cls)), ready_state r q, o)).
+  { cbn [recv_step]. rewrite (poll_data_char r q _ Hq). cbn [read_result]. rewrite convert_read_error_spec, Hc. reflexivity. }
+  pose proof (recv_step_inv _ _ _ _ _ _ _ Hinv Hstep) as Hinv2.
+  exists cls, (ready_state r q). eexists.
+  split; [rewrite (poll_data_char r q _ Hq); cbn [read_result]; rewrite convert_read_error_spec, Hc; reflexivity|].
+  split; [reflexivity|]. split; [reflexivity|]. split; [reflexivity|]. split; [exact Hinv2|].
+  split; [apply recv_id_ok; exact Hinv2|]. split.
+  - intros c Hcle. unfold stop_sending. destruct (N.ltb_spec varint_max c); [lia|]. reflexivity.
+  - intros a o' Ha. destruct (recv_step OPollData (ready_state r q) (a :: o')) as [[x r3] o3] eqn:HS.
+    pose proof (recv_step_inv _ _ _ _ _ _ _ Hinv2 HS) as Hinv3.
+    assert (Hord : answers_ordered (a :: o' ++ [])).
+    { clear. unfold answers_ordered. constructor. }
+    cbn [recv_step] in HS. destruct (poll_data (a :: o') (ready_state r q)) as [[x0 r0] o0] eqn:HP.
+    inversion HS; subst. exists x0, r3, o3. split; [reflexivity|]. split; [|split; [exact Hinv3|apply recv_id_ok; exact Hinv3]].
+    destruct Hinv2 as (_ & (q2' & Hq2' & _) & _). rewrite (poll_data_char _ q2' _ Hq2') in HP.
+    destruct a as [b| | |e']; inversion HP; subst; cbn; auto.
+    apply (read_result_not_panic (RFail e')); [discriminate|exact Ha].
 Qed.
 
 (* ====================================================================== BidiStream, open / accept *)
